@@ -157,6 +157,10 @@ type srvRun struct {
 	extra    []map[string]any // environment events to log before the current step
 	abort    bool             // stop the script after this step
 	unsettled []int
+	g        *gates
+	points   map[int]*gatePoint
+	loginID  map[int]uint32
+	loginArgs map[int]map[string]any
 }
 
 func (r *srvRun) chatOf(b []byte) int {
@@ -383,14 +387,22 @@ func runSrvScript(run int, sc srvScript) (evs []map[string]any, err error) {
 	if err != nil {
 		return nil, err
 	}
+	g := newGates()
 	defer w.Close()
-	r := &srvRun{w: w, cl: map[int]*sim.Client{}, ids: map[int]int{}, ips: map[int]string{}, chatIdx: map[string]int{},
+	w.Srv.AccountManager = &gateAM{AccountManager: w.Srv.AccountManager, g: g}
+	w.Srv.ClientMgr = &gateCM{ClientManager: w.Srv.ClientMgr, g: g}
+	r := &srvRun{g: g, points: map[int]*gatePoint{}, loginID: map[int]uint32{}, loginArgs: map[int]map[string]any{}, w: w, cl: map[int]*sim.Client{}, ids: map[int]int{}, ips: map[int]string{}, chatIdx: map[string]int{},
 		pending: map[int]map[uint32]string{}, settle: map[int]map[uint32]bool{}, doneSeen: map[int]bool{}, port: 20000, soon: map[string]time.Time{}}
 	wa := map[string]any{}
 	for l, a := range sc.World.Accts {
 		wa[l] = map[string]any{"pw": nz(a.Pw), "name": nz(a.Name), "acc": nz(a.Acc)}
 	}
 	evs = append(evs, map[string]any{"op": "world", "run": run, "accts": wa, "agreement": nz(sc.World.Agreement)})
+	defer func() { // never leave a handler parked at a gate
+		for _, pt := range r.points {
+			pt.open()
+		}
+	}()
 	for _, st := range sc.Steps {
 		ev := map[string]any{}
 		for k, v := range st {
@@ -454,7 +466,7 @@ func (r *srvRun) step(st map[string]any, ev map[string]any) error {
 			}
 		}
 		r.port++
-		c = r.w.Dial(fmt.Sprintf("%s:%d", ip, r.port))
+		c = r.w.DialWith(fmt.Sprintf("%s:%d", ip, r.port), r.g.bind(slot))
 		r.cl[slot] = c
 		r.ips[slot] = ip
 		r.pending[slot] = map[uint32]string{}
@@ -488,6 +500,55 @@ func (r *srvRun) step(st map[string]any, ev map[string]any) error {
 		} else {
 			ev["id"] = -1
 		}
+	case "loginbegin":
+		fields := []sim.F{sim.Fld(sim.FUserLogin, sim.Obfuscate([]byte(st["login"].(string)))), sim.Fld(sim.FUserPassword, sim.Obfuscate(bytesOf(st["pw"])))}
+		if st["flow"] == "old" {
+			fields = append(fields, sim.Fld(sim.FUserName, bytesOf(st["name"])), sim.Fld(sim.FUserIconID, sim.U16(intOf(st["icon"]))))
+		} else {
+			fields = append(fields, sim.Fld(sim.FVersion, sim.U16(190)))
+		}
+		// park the handler where it looks the credentials up
+		pt := r.g.arm("amget", slot)
+		r.points[slot] = pt
+		r.loginID[slot] = r.send(slot, "login", sim.TLogin, fields...)
+		r.loginArgs[slot] = st
+		ev["gated"] = pt.waitArrived(5 * time.Second)
+	case "loginend":
+		b := r.loginArgs[slot]
+		ev["matches"] = r.matches(b["login"].(string), bytesOf(b["pw"]))
+		if pt := r.points[slot]; pt != nil {
+			pt.open()
+		}
+		id := r.loginID[slot]
+		_, err := c.WaitFor(func(t sim.Tx) bool { return t.IsReply == 1 && t.ID == id }, 10*time.Second)
+		if err != nil && err != sim.ErrClosed {
+			return fmt.Errorf("login reply: %w", err)
+		}
+		if err := c.WaitServerIdleOrDone(10 * time.Second); err != nil {
+			return err
+		}
+		if !c.ServerDone() {
+			r.ids[slot] = c.ID()
+			ev["id"] = c.ID()
+		} else {
+			ev["id"] = -1
+		}
+	case "closebegin":
+		pt := r.g.arm("cmdel", slot)
+		r.points[slot] = pt
+		c.Close()
+		ev["gated"] = pt.waitArrived(5 * time.Second)
+	case "closeend":
+		if pt := r.points[slot]; pt != nil {
+			pt.open()
+		}
+		if !c.WaitServerDone(10 * time.Second) {
+			return fmt.Errorf("server did not finish a closed connection")
+		}
+	case "chatstorm":
+		return r.chatStorm(st, ev)
+	case "banstorm":
+		return r.banStorm(st, ev)
 	case "agreed":
 		f := []sim.F{sim.Fld(sim.FUserName, bytesOf(st["name"])), sim.Fld(sim.FUserIconID, sim.U16(intOf(st["icon"]))), sim.Fld(sim.FOptions, sim.U16(intOf(st["opts"])))}
 		if intOf(st["opts"])&4 != 0 {
@@ -540,7 +601,12 @@ func (r *srvRun) step(st map[string]any, ev map[string]any) error {
 	case "setuser":
 		acc := sim.AccessBits(intsOf(st["acc"])...)
 		r.send(slot, op, sim.TSetUser, sim.Fld(sim.FUserLogin, sim.Obfuscate([]byte(st["login"].(string)))), sim.Fld(sim.FUserName, bytesOf(st["name"])),
-			sim.Fld(sim.FUserPassword, []byte{0}), sim.Fld(sim.FUserAccess, acc[:]))
+			sim.Fld(sim.FUserPassword, func() []byte {
+				if intOf(st["pwset"]) == 1 {
+					return sim.Obfuscate(bytesOf(st["newpw"]))
+				}
+				return []byte{0}
+			}()), sim.Fld(sim.FUserAccess, acc[:]))
 	case "kick":
 		tg := intOf(st["target"])
 		f := []sim.F{sim.Fld(sim.FUserID, r.uidOf(tg))}
